@@ -21,7 +21,7 @@ WARM = None
 
 def plan(tier, seed):
     shards = []
-    for i in range(6 if tier == 'quick' else 14):
+    for i in range(6 if tier == 'quick' else 36):
         shards.append({'name': 'generate-%d' % i, 'fn': 'shard_generate', 'args': {'part': i}})
     shards.append({'name': 'naive', 'fn': 'shard_naive', 'args': {}})
     shards.append({'name': 'fresh-process', 'fn': 'shard_fresh', 'args': {}})
